@@ -12,12 +12,6 @@ Ltac crunch E :=
           | context [match ?x with _ => _ end] => destruct x eqn:?; try discriminate
           end).
 
-Lemma rd_inv m i x : rd m i = Ok x -> i < length m /\ x = at_ m i.
-Proof.
-  unfold rd, at_. intros H. destruct (nth_error m i) as [y|] eqn:E; [|discriminate]. inversion H; subst.
-  split; [apply nth_error_Some; congruence|]. symmetry. apply nth_error_nth. exact E.
-Qed.
-
 (* ------------------------------------------------------------------ find_boundary *)
 Lemma fb_loop_eol m buf len bnd : forall fuel pos p,
   fb_loop fuel m buf len bnd pos = Ok p -> p <> 0 ->
